@@ -834,6 +834,12 @@ def run(chk):
 
 
 def finish(chk):
+    try:
+        import resource
+        ru = resource.getrusage(resource.RUSAGE_CHILDREN)
+        chk.coverage["cpu_s_of_worker_processes"] = round(ru.ru_utime + ru.ru_stime, 1)     # wall time depends on the machine's load
+    except Exception:
+        pass
     if chk.tier == "thorough" and chk.lean is not None and chk.lean.build_ok:
         ok, out = leanchecker(["SqlLineage.Props.C11", "SqlLineage.Proofs.PermLemmas", "SqlLineage.Model.Lazy"])
         chk.coverage["leanchecker"] = "accepted" if ok else "REJECTED: " + out[-300:]
